@@ -1,2 +1,50 @@
-/- C14 — property theorems (being extended); the writer model these will be about: -/
-import E57.Model.Writer
+/-
+C14 — Bounds and default limits written by the writer are exact.
+
+Proved in E57/Proofs/WriterProps.lean (Part A) on the writer model (E57/Model/Writer.lean):
+the bounds pushed for the XML are, field by field, the fold of `update_min`/`update_max` over the
+`to_f64` (resp. `to_i64`) values of all occurrences of the corresponding record in all ACCEPTED
+points, and such a fold returns an exact minimum/maximum for any strict order on the values in
+play.  `Float` comparison is opaque to the kernel, so the order facts about `fltLt` on non-NaN
+values (irreflexive, transitive) are a HYPOTHESIS of the float theorems (`StrictOn S fltLt`), not
+an axiom; for the integer index bounds everything is proved outright.  The correspondence suite
+`writer` compares the XML numbers byte for byte and its oracle recomputes the bounds independently.
+-/
+import E57.Proofs.WriterProps
+namespace E57.C14
+open E57
+
+/-- **Exact bounds after any sequence of accepted points.**  After `PcW.new` and any list of
+    `add_point` calls that all succeed, the writer's metadata satisfies `BoundsExact`: each of the
+    twelve float bounds is `foldMin/foldMax fltLt` of the record's values over all points, each of
+    the six index bounds the integer fold, and each bounds structure is present exactly when the
+    prototype contains its attribute group; the record count is the number of points. -/
+theorem bounds_are_exact (pw : PW) (exts : List (String × String)) (guid : String) (proto : Prototype)
+    (hpw : pw.Inv) (pw0 : PW) (w0 : PcW) (hnew : PcW.new pw exts guid proto = .ok (pw0, w0))
+    (pts : List (List Value)) (pw1 : PW) (w1 : PcW) (hadd : addPoints pts (pw0, w0) = .ok (pw1, w1)) :
+    BoundsExact proto pts w1.pc ∧ w1.pointCount = pts.length ∧ w1.prototype = proto :=
+  bounds_exact pw exts guid proto hpw pw0 w0 hnew pts pw1 w1 hadd
+
+/-- the fold is a minimum: it is one of the values and no value is smaller — for ANY strict order
+    (instantiated with IEEE `<` on non-NaN doubles for the float bounds) -/
+theorem fold_min_is_minimum {α : Type} {S : α → Prop} {lt : α → α → Bool} (h : StrictOn S lt)
+    (vs : List α) (hS : ∀ v ∈ vs, S v) (hne : vs ≠ []) :
+    ∃ m, foldMin lt vs = some m ∧ m ∈ vs ∧ ∀ v ∈ vs, lt v m = false := foldMin_spec h vs hS hne
+
+theorem fold_max_is_maximum {α : Type} {S : α → Prop} {lt : α → α → Bool} (h : StrictOn S lt)
+    (vs : List α) (hS : ∀ v ∈ vs, S v) (hne : vs ≠ []) :
+    ∃ m, foldMax lt vs = some m ∧ m ∈ vs ∧ ∀ v ∈ vs, lt m v = false := foldMax_spec h vs hS hne
+
+/-- integer (row / column / return index) bounds are the exact minimum and maximum -/
+theorem index_min_exact (vs : List Int) (hne : vs ≠ []) (m : Int) :
+    foldMin ltI vs = some m ↔ m ∈ vs ∧ ∀ v ∈ vs, m ≤ v := foldMin_int vs hne m
+
+theorem index_max_exact (vs : List Int) (hne : vs ≠ []) (m : Int) :
+    foldMax ltI vs = some m ↔ m ∈ vs ∧ ∀ v ∈ vs, v ≤ m := foldMax_int vs hne m
+
+/-- a rejected point moves no bound: `add_point` returns an error without a new state -/
+theorem rejected_point_changes_nothing (w : PcW) (pw : PW) (vs : List Value)
+    (h : vs.length ≠ w.prototype.length ∨ checkValues w.prototype vs = false) :
+    stepKeep (pw, w) vs = (pw, w) := addPoint_err_no_state w pw vs h
+
+end E57.C14
